@@ -279,6 +279,8 @@ def options_agreement_stream(ctx, n):
     for i, sc in enumerate(scs):
         if sc["res_state"] in ("missing", "badext") or sc["ref_state"] in ("missing", "badext"):
             continue            # (a missing / differently named file is a different directory-mode scenario: categorisation stream)
+        if os.path.basename(c04.written_name("data", sc, "res")) != os.path.basename(c04.written_name("data", sc, "ref")):
+            continue            # (one side stored in another format, hence under another name: the same)
         root = os.path.join(str(ctx.workdir), f"oa{i}")
         A, B = os.path.join(root, "A"), os.path.join(root, "B")
         os.makedirs(A)
